@@ -20,6 +20,22 @@ CHECKS = {
         "Trusts Hypothesis generation and the harness drivers mirroring _DataReceiverImpl/_BufferedReceiverImpl; cbor/msgpack/trio not importable offline.",
         "DESIGN.md section 3 C01",
     ),
+    "C08": (
+        "exploration",
+        "property-based differential against an independent stdlib-ssl peer on a virtual-time loop: generated write sizes x ciphertext fragmentation x interleaving",
+        "Live TLS sessions (client and server side, TLS 1.2/1.3) between AsyncTLSStreamTransport over an in-memory transport and an independent ssl.SSLObject peer; "
+        "byte-exact transfer in both directions, no deadlock (virtual loop raises Deadlock), no plaintext marker in any byte handed to the wrapped transport, close_notify on close.",
+        "Trusts OpenSSL/stdlib ssl as the reference peer and the harness conductor; blocking SSLStreamTransport covered by layer 'sync' when present.",
+        "DESIGN.md section 3 C08",
+    ),
+    "C09": (
+        "fault_enumeration",
+        "fault enumeration + property-based search: live TLS stream cut at every enumerated byte offset / generated offsets, oracle on what the reader reports",
+        "Cuts the peer->SUT ciphertext of live sessions at enumerated offsets (every record boundary +-1 and a stride in quick, every offset in thorough) for role x version x standard_compatible, "
+        "plus generated shapes/offsets/fragmentations; the reader must never see clean EOF before the peer's close_notify in standard-compatible mode, must see EOF in non-standard mode, wrap() failure closes the transport, close sends close_notify.",
+        "Trusts stdlib ssl peer; truncation is decided per run from the live stream (record headers parsed by the harness).",
+        "DESIGN.md section 3 C09",
+    ),
 }
 
 PENDING = {}
